@@ -97,6 +97,9 @@ func generate(w *mon.W) {
 	for _, src := range c04.PlacementSources() {
 		do(src, nil)
 	}
+	for _, src := range c04.SkeletonSources() {
+		do(src, nil)
+	}
 	// the directed join families of C03, and typed expressions at every
 	// expression position (join conditions included)
 	for _, p := range c03.DirectedPipelines(w.Seed, w.Pick(1_500, 40_000)) {
